@@ -710,6 +710,12 @@ impl Debugger {
     ///
     /// **! change exploration context**
     pub fn restart_debugee(&mut self) -> Result<Pid, Error> {
+        self.restart_debugee_with_reason()?;
+        Ok(self.process.pid())
+    }
+
+    /// Restart debugee, return the reason of the first stop of the new process.
+    fn restart_debugee_with_reason(&mut self) -> Result<StopReason, Error> {
         match self.debugee.execution_status() {
             ExecutionStatus::Unload => {
                 // all breakpoints and watchpoints already disabled by default
@@ -749,8 +755,7 @@ impl Debugger {
 
         self.hooks.on_process_install(self.process.pid(), None);
         self.expl_context = ExplorationContext::new_non_running(self.process.pid());
-        self.continue_execution()?;
-        Ok(self.process.pid())
+        self.continue_execution()
     }
 
     fn start_debugee_inner(&mut self, force: bool, dry_start: bool) -> Result<(), Error> {
@@ -807,10 +812,9 @@ impl Debugger {
         match self.debugee.execution_status() {
             ExecutionStatus::Unload => self.continue_execution(),
             ExecutionStatus::InProgress | ExecutionStatus::Exited => {
-                self.restart_debugee()?;
-                // restart_debugee itself continues execution until the next stop.
-                // If it returns successfully, we are already stopped; map this to a synthetic reason.
-                Ok(StopReason::DebugeeStart)
+                // restart_debugee itself continues execution until the next stop: report that stop
+                // (a breakpoint, a signal, or the exit of the new process).
+                self.restart_debugee_with_reason()
             }
         }
     }
